@@ -281,3 +281,95 @@ func lemmaTickMonotone(intervalStart uint64, intervalsPerDay uint32, t1, t2 uint
 //@ assumepre catalog.Directory.AddTimeBucket.schema "observation outside C16: item/category count mismatch is not checked"
 //@ loop 0 invariant true
 //@ loop 1 invariant true
+
+// ---------------------------------------------------------------------------------------------
+// C01 / C04 / C05 / C35: write-ahead ordering on the WAL write path (ghost record log, see utils/zz_verif_stdlib.go)
+
+//@ func (*TransactionPipe).TGID
+//@ trusted "atomic load of tgID"
+//@ pure
+//@ ensures result == tgc.tgID
+
+//@ func (*TransactionPipe).IncrementTGID
+//@ props C05
+//@ trusted "atomic.AddInt64(&tgID, 1)"
+//@ modifies mem:executor.TransactionPipe
+//@ ensures tgc.tgID == wrap64(old(tgc.tgID) + 1) && result == tgc.tgID
+
+//@ func (*WALFileType).initMessage
+//@ props C01 C05
+//@ ensures #one: len(result) == 1 && sle8(result, 0) == mid
+//@ ensures #frame: forallint(a, pattern(mem(result)[a]), a < oldtop() ==> mem(result)[a] == old(mem(result))[a])
+
+// Writing a transaction-info record appends (tid, did, status) to the abstract record log. The preconditions are the
+// protocol: a WAL COMMITCOMPLETE record comes directly after a complete TG frame carrying the same id
+// (message id byte, 8-byte length, payload starting with the id, 16-byte checksum); a CHECKPOINT COMMITCOMPLETE record
+// comes after a syncfs and directly after the PREPARING record of the same id.
+//@ func (*WALFileType).WriteTransactionInfo
+//@ props C01 C04 C05 C35
+//@ ghostmod ghost:infoN ghost:infoTid ghost:infoDest ghost:infoStatus
+//@ requires #frameBeforeCommit: (did == WAL && txnStatus == COMMITCOMPLETE) ==> (walWrites >= 4 && wLen[walWrites-1] == 16 && wLen[walWrites-3] == 8 && wLen[walWrites-4] == 1 && wB0[walWrites-4] == TGDATA && wLen[walWrites-2] >= 8 && wHead[walWrites-2] == tid && wHead[walWrites-3] == wLen[walWrites-2])
+//@ requires #syncBeforeCheckpointCommit: (did == CHECKPOINT && txnStatus == COMMITCOMPLETE) ==> (!primaryDirty && infoN >= 1 && infoTid[infoN-1] == tid && infoDest[infoN-1] == CHECKPOINT && infoStatus[infoN-1] == PREPARING)
+//@ ensures #written: result == nil ==> walWrites == old(walWrites) + 1
+//@ marks #logged: result == nil ==> (infoN == old(infoN) + 1 && infoTid[old(infoN)] == tid && infoDest[old(infoN)] == did && infoStatus[old(infoN)] == txnStatus)
+//@ marks #logKept: forallint(k, pattern(infoTid[k]), k < old(infoN) ==> (infoTid[k] == old(infoTid[k]) && infoDest[k] == old(infoDest[k]) && infoStatus[k] == old(infoStatus[k])))
+//@ marks #logSame: result != nil ==> infoN == old(infoN)
+
+// Primary files are written only after the commit record of the current transaction group is in a synced WAL.
+//@ func (*WALFileType).writePrimary
+//@ props C01 C04
+//@ trusted "opens the year file and writes the buffers (file I/O): only the ordering precondition is stated"
+//@ modifies ghost:primaryDirty
+//@ requires #walSyncedFirst: wf.WALBypass || (!walDirty && infoN >= 1 && infoDest[infoN-1] == WAL && infoStatus[infoN-1] == COMMITCOMPLETE && infoTid[infoN-1] == wf.lastCommittedTGID)
+//@ ensures primaryDirty
+
+//@ func serializeTG
+//@ props C28 C01 C05
+//@ option noimplicit
+//@ loop 0 invariant #hdr: 0 <= i && i <= WTCount && len(tgSerialized) >= 16 && sle64(tgSerialized, 0) == tgID
+//@ ensures #id: len(tgSerialized2) >= 16 && sle64(tgSerialized2, 0) == tgID
+
+//@ func (*WALFileType).FlushCommandsToWAL
+//@ props C01 C04 C05 C35
+//@ option noimplicit
+//@ loop 0 invariant #idx: 0 <= i
+//@ loop 1 invariant true
+//@ loop 2 invariant true
+//@ exit #acked: (result == nil && !wf.WALBypass) ==> (!walDirty && wf.lastCommittedTGID == old(wf.txnPipe.tgID))
+
+//@ func (ReplicationSender).Send
+//@ trusted "hands the serialized transaction to the replication goroutine; writes no WAL or catalog state"
+//@ pure
+
+// A checkpoint: PREPARING record, syncfs, COMMITCOMPLETE record of the same id; the id is forgotten only after both
+// records were written.
+//@ func (*WALFileType).CreateCheckpoint
+//@ props C04 C05 C35 C01 C34
+//@ ghostmod ghost:clock ghost:ckptAt
+//@ ensures #done: (result == nil && old(wf.lastCommittedTGID) != 0 && !wf.WALBypass) ==> (infoN == old(infoN) + 2 && infoTid[infoN-1] == old(wf.lastCommittedTGID) && infoDest[infoN-1] == CHECKPOINT && infoStatus[infoN-1] == COMMITCOMPLETE && infoStatus[infoN-2] == PREPARING && infoTid[infoN-2] == old(wf.lastCommittedTGID) && !primaryDirty)
+//@ ensures #forgotten: result == nil ==> wf.lastCommittedTGID == 0
+//@ ensures #kept: result != nil ==> wf.lastCommittedTGID == old(wf.lastCommittedTGID)
+//@ ensures #bypass: (result == nil && old(wf.lastCommittedTGID) != 0 && wf.WALBypass) ==> !primaryDirty
+//@ marks #time: clock == old(clock) + 1 && ckptAt == clock
+
+//@ func (*WALFileType).CanWrite
+//@ trusted "reads the status record of the WAL file"
+//@ modifies mem:executor.WALFileType ghost:filePos
+//@ ensures wf.lastCommittedTGID == old(wf.lastCommittedTGID) && wf.WALBypass == old(wf.WALBypass) && wf.txnPipe == old(wf.txnPipe)
+
+//@ func (*WALFileType).FlushToWAL
+//@ props C01 C05 C07 C35
+//@ option noimplicit
+//@ option abstract channel
+//@ option maypanic
+//@ ghostmod ghost:clock ghost:flushAt
+//@ loop 0 invariant #idx: 0 <= i
+//@ marks #time: clock == old(clock) + 1 && flushAt == clock
+
+// Shutdown: flush, then checkpoint, then release the waiter (Shutdown() returns after walWaitGroup.Wait()).
+//@ func (*WALFileType).SyncWAL
+//@ props C35 C04 C07
+//@ option noimplicit
+//@ option abstract channel
+//@ loop 0 invariant true
+//@ exit #shutdownOrder: old(clock) < flushAt && flushAt < ckptAt && ckptAt < doneAt
